@@ -9,7 +9,10 @@
 //   dtor_drain                      on T0 while ~ThreadPool is in progress (the destructor's own drain loops)
 //   inline_on_pool_thread           inline, and the submitting thread is a pool worker (pool-recursive load rule)
 #include "mc_harness.h"
+#include "submit_stacknorm.h"
 #include <dispenso/thread_pool.h>
+
+SUBMIT_STACKNORM_INSTALL();
 
 namespace {
 constexpr int kMaxTasks = 32;
@@ -106,6 +109,8 @@ MC_HARNESS(submit) {
   c.t0_id = mc_self_id();
   c.harness_thread[0].set(c.t0_id + 1);
   std::string t0 = P.s("t0", ""), t1 = P.s("t1", ""), inner = P.s("p", "");
+  // scheduleBulk from a pool thread enqueues without a producer token: see submit_stacknorm.h
+  submit_stacknorm::g_enabled = inner.find('b') != std::string::npos;
   {
     dispenso::ThreadPool pool((size_t)n, (size_t)mult);
     if (P("poll", 0)) pool.setSignalingWake(false, std::chrono::microseconds(200));
